@@ -514,7 +514,60 @@ func (w *walker) stmt(s ast.Stmt) {
 
 // condText renders a condition; a read inside it is rendered as the read method.
 func (w *walker) condText(e ast.Expr) string {
+	// this.P(k) where P is a one-line predicate `return (this.F & param) != 0`: the condition is the bit test itself
+	if c, ok := e.(*ast.CallExpr); ok && len(c.Args) == 1 {
+		if sel, ok := c.Fun.(*ast.SelectorExpr); ok {
+			if id, ok := sel.X.(*ast.Ident); ok && id.Name == w.recv {
+				if f, ok := bitPredicate(w.typ, sel.Sel.Name); ok {
+					return f + " & " + w.text(c.Args[0]) + " != 0"
+				}
+			}
+		}
+	}
 	return w.text(e)
+}
+
+// bitPredicate: does Type.Method have the body `return (recv.F & param) != 0`?  Returns F.
+func bitPredicate(typ, method string) (string, bool) {
+	fd := methods[typ+"."+method]
+	if fd == nil || len(fd.Body.List) != 1 || fd.Type.Params == nil || len(fd.Type.Params.List) != 1 || len(fd.Type.Params.List[0].Names) != 1 {
+		return "", false
+	}
+	param := fd.Type.Params.List[0].Names[0].Name
+	recv := ""
+	if fd.Recv != nil && len(fd.Recv.List) > 0 && len(fd.Recv.List[0].Names) > 0 {
+		recv = fd.Recv.List[0].Names[0].Name
+	}
+	ret, ok := fd.Body.List[0].(*ast.ReturnStmt)
+	if !ok || len(ret.Results) != 1 {
+		return "", false
+	}
+	be, ok := ret.Results[0].(*ast.BinaryExpr)
+	if !ok || be.Op != token.NEQ {
+		return "", false
+	}
+	if lit, ok := be.Y.(*ast.BasicLit); !ok || lit.Value != "0" {
+		return "", false
+	}
+	x := be.X
+	if p, ok := x.(*ast.ParenExpr); ok {
+		x = p.X
+	}
+	and, ok := x.(*ast.BinaryExpr)
+	if !ok || and.Op != token.AND {
+		return "", false
+	}
+	sel, ok := and.X.(*ast.SelectorExpr)
+	if !ok {
+		return "", false
+	}
+	if id, ok := sel.X.(*ast.Ident); !ok || id.Name != recv {
+		return "", false
+	}
+	if id, ok := and.Y.(*ast.Ident); !ok || id.Name != param {
+		return "", false
+	}
+	return sel.Sel.Name, true
 }
 
 func (w *walker) callStmt(e ast.Expr) {
@@ -839,7 +892,9 @@ var (
 	reIfZ  = regexp.MustCompile(`^if (\w+) == 0$`)
 	reIfNil = regexp.MustCompile(`^if (\w+) == nil$`)
 	reIfNN = regexp.MustCompile(`^if (\w+) != nil$`)
-	reIfBit = regexp.MustCompile(`^if IsTrue\((\d+)\)$`)
+	reIfBit = regexp.MustCompile(`^if (\w+) & (\d+) != 0$`)
+	reIfType = regexp.MustCompile(`^if (\w+)\.\((\S+)\)#1$`)
+	reAsgCast = regexp.MustCompile(`^assign (\w+):(\S+) = (\w+)\.\((\S+)\)#0$`)
 	reIfLt = regexp.MustCompile(`^if (local\d+) < (\d+)$`)
 	reIfEq = regexp.MustCompile(`^if (local\d+) == (\d+)$`)
 	reIfPos = regexp.MustCompile(`^if (local\d+) > 0$`)
@@ -912,7 +967,10 @@ func leanTok(t string) string {
 		return ".ifnn " + q(m[1])
 	}
 	if m := reIfBit.FindStringSubmatch(t); m != nil {
-		return ".ifbit " + m[1]
+		return fmt.Sprintf(".ifbit %s %s", q(m[1]), m[2])
+	}
+	if m := reIfType.FindStringSubmatch(t); m != nil {
+		return fmt.Sprintf(".iftype %s %s", q(m[1]), q(m[2]))
 	}
 	if m := reIfLt.FindStringSubmatch(t); m != nil {
 		return fmt.Sprintf(".iflt %s %s", q(m[1]), m[2])
@@ -925,6 +983,9 @@ func leanTok(t string) string {
 	}
 	if m := reCase.FindStringSubmatch(t); m != nil {
 		return ".cs " + m[1]
+	}
+	if m := reAsgCast.FindStringSubmatch(t); m != nil {
+		return fmt.Sprintf(".asgcast %s %s %s %s", q(m[1]), q(m[2]), q(m[3]), q(m[4]))
 	}
 	if m := reAsgOp.FindStringSubmatch(t); m != nil {
 		return fmt.Sprintf(".asgop %s %s %s %s", q(m[1]), q(m[2]), q(m[3]), q(m[4]))
